@@ -1,6 +1,8 @@
 package main
 
 import (
+	"bytes"
+	"crypto/sha256"
 	"encoding/json"
 	"fmt"
 	"go/token"
@@ -46,6 +48,23 @@ type commuteAllow struct {
 	Site   int    `json:"site"`
 	Form   string `json:"form"`
 	Reason string `json:"reason"`
+	// Body: sha256 of the function's SSA text the written argument was made for (optional). An argument that
+	// speaks about what the loop's results are used for is only valid for that version of the function.
+	Body string `json:"body_sha256"`
+}
+
+// ssaBodyHash: sha256 over the SSA text of fn without its "# ..." header lines (which carry file positions).
+func ssaBodyHash(fn *ssa.Function) string {
+	var buf bytes.Buffer
+	fn.WriteTo(&buf)
+	var keep []string
+	for _, l := range strings.Split(buf.String(), "\n") {
+		if strings.HasPrefix(l, "#") {
+			continue
+		}
+		keep = append(keep, l)
+	}
+	return fmt.Sprintf("%x", sha256.Sum256([]byte(strings.Join(keep, "\n"))))
 }
 
 func findMapRanges(p *Program) []*commuteSite {
@@ -644,6 +663,10 @@ func runCommute(p *Program, u *Universe, pc *PropConfig, res *checkResult, tier 
 		if !ok {
 			for _, a := range allow {
 				if a.Fn == fnName && a.Site == s.Ord && (a.Form == form || a.Form == "") {
+					if a.Body != "" && a.Body != ssaBodyHash(s.Fn) {
+						reasons = append(reasons, "the listed argument was written for another version of this function (body hash "+ssaBodyHash(s.Fn)+" differs from the recorded one): the argument has to be re-validated")
+						continue
+					}
 					ok = true
 					entry["rule"] = "listed argument (" + form + ")"
 					entry["argument"] = a.Reason
